@@ -14,9 +14,10 @@ open PyElf PyElf.Spec PyElf.Spec.C15 PyElf.Model PyElf.Model.C15 PyElf.Proofs
 
 /-! ### opening a well-formed image that has sections -/
 
-/-- the `ElfFile` that `ELFFile(stream)` leaves behind -/
-def fileOf (d : ElfDesc) (bytes : Bytes) (hdr st : Val) : ElfFile :=
-  { data := bytes, cls := d.cls, le := d.le, S := d.S, header := hdr, shstr := some st }
+/-- the `ElfFile` that `ELFFile(stream)` leaves behind (`st`: its name table, `none` for a file
+    without one — `e_shstrndx` = SHN_UNDEF; cf. `Proofs.Setup`) -/
+def fileOf (d : ElfDesc) (bytes : Bytes) (hdr : Val) (st : Option Val) : ElfFile :=
+  { data := bytes, cls := d.cls, le := d.le, S := d.S, header := hdr, shstr := st }
 
 theorem file_setup {env : Env} {d : ElfDesc} {bytes : Bytes} (hwf : d.wfZ env = true) (hl : Layout d bytes)
     (hn : 0 < d.sections.length) :
@@ -51,27 +52,27 @@ theorem rawHdr_eq (d : ElfDesc) {i : Nat} (hi : i < d.sections.length) : rawHdr 
   simp [rawHdr, List.getElem?_eq_getElem hi]
 
 /-- what is known of the header of section `i` as the reader decodes it -/
-structure SecView (env : Env) (d : ElfDesc) (bytes : Bytes) (hdr st : Val) (i : Nat) (h : Val) : Prop where
+structure SecView (env : Env) (d : ElfDesc) (bytes : Bytes) (hdr : Val) (st : Option Val) (i : Nat) (h : Val) : Prop where
   hi : i < d.sections.length
   dec : d.decHdr env i = some h
   get : getSectionHeader env d.S bytes hdr i = .ok (some h)
   nat : ∀ k ∈ shdrNatKeys, k ≠ "sh_name" → h.getNat k = .ok (getNatD (rawHdr d i) k)
 
-theorem sec_view {env : Env} {d : ElfDesc} {bytes : Bytes} {hdr st : Val} (X : Setup env d bytes hdr st)
+theorem sec_view {env : Env} {d : ElfDesc} {bytes : Bytes} {hdr : Val} {st : Option Val} (X : Setup env d bytes hdr st)
     {i : Nat} (hi : i < d.sections.length) : ∃ h, SecView env d bytes hdr st i h := by
   obtain ⟨_, h, _, _, hdec, hsf, _, _⟩ := sec_bundle X.hw.cls X.hL (X.hw.secs i hi)
   refine ⟨h, hi, hdec, getSectionHeader_ok X.hw X.hL X.hf hdec, ?_⟩
   intro k hk hne
   rw [hsf.nat k hk, hsf.raw k hk hne, rawHdr_eq d hi]
 
-theorem sec_view_unique {env : Env} {d : ElfDesc} {bytes : Bytes} {hdr st : Val} {i : Nat} {h h' : Val}
+theorem sec_view_unique {env : Env} {d : ElfDesc} {bytes : Bytes} {hdr : Val} {st : Option Val} {i : Nat} {h h' : Val}
     (V : SecView env d bytes hdr st i h) (hdec : d.decHdr env i = some h') : h' = h := by
   have := V.dec
   rw [hdec] at this
   cases this
   rfl
 
-theorem linkedHeader_ok {env : Env} {d : ElfDesc} {bytes : Bytes} {hdr st : Val} {i : Nat} {h : Val}
+theorem linkedHeader_ok {env : Env} {d : ElfDesc} {bytes : Bytes} {hdr : Val} {st : Option Val} {i : Nat} {h : Val}
     (V : SecView env d bytes hdr st i h) : linkedHeader env (fileOf d bytes hdr st) i = .ok h := by
   unfold linkedHeader
   show (do match ← getSectionHeader env d.S bytes hdr i with
@@ -80,10 +81,10 @@ theorem linkedHeader_ok {env : Env} {d : ElfDesc} {bytes : Bytes} {hdr st : Val}
   rw [V.get]
   rfl
 
-theorem getSection_kind {env : Env} {d : ElfDesc} {bytes : Bytes} {hdr st : Val} (X : Setup env d bytes hdr st)
+theorem getSection_kind {env : Env} {d : ElfDesc} {bytes : Bytes} {hdr : Val} {st : Option Val} (X : Setup env d bytes hdr st)
     {i : Nat} {h : Val} (V : SecView env d bytes hdr st i h) {t : String}
     (hty : h.getField "sh_type" = .ok (.str t)) :
-    getSection env d.S bytes hdr (some st) i = .ok (kindOf (.str t) (d.sections[i]'V.hi).name, (d.sections[i]'V.hi).name, h) := by
+    getSection env d.S bytes hdr st i = .ok (kindOf (.str t) (d.sections[i]'V.hi).name, (d.sections[i]'V.hi).name, h) := by
   obtain ⟨h', ty, hdec, -, hty', hget⟩ := getSection_ok X V.hi
   have := sec_view_unique V hdec
   subst this
@@ -162,7 +163,7 @@ theorem getVerSection_versym_of {env : Env} {f : ElfFile} {n : Nat} {nm : Bytes}
   rfl
 
 /-- `get_section(sec)` of a requirement/definition section: the constructor arguments -/
-theorem getVerSection_ver {env : Env} {d : ElfDesc} {bytes : Bytes} {hdr st : Val} (X : Setup env d bytes hdr st)
+theorem getVerSection_ver {env : Env} {d : ElfDesc} {bytes : Bytes} {hdr : Val} {st : Option Val} (X : Setup env d bytes hdr st)
     {sec : Nat} {ty : String} {body : Bytes} {declared : Nat} {linkOk : Bytes → Bool}
     (F : VerSecFacts env d sec ty body declared linkOk) :
     ∃ off strOff strtab rest rest', linkOk strtab = true ∧ bytes.drop off = body ++ rest ∧
@@ -247,7 +248,7 @@ theorem versymFileWf_unpack {env : Env} {d : ElfDesc} {sec : Nat} {fill : UInt8}
 
 /-- `get_section(sec)` of a version-symbol table: the constructor arguments, and the file is a layout
     of the rows and of the symbols -/
-theorem getVerSection_versym {env : Env} {d : ElfDesc} {bytes : Bytes} {hdr st : Val} (X : Setup env d bytes hdr st)
+theorem getVerSection_versym {env : Env} {d : ElfDesc} {bytes : Bytes} {hdr : Val} {st : Option Val} (X : Setup env d bytes hdr st)
     {sec : Nat} {fill : UInt8} {rows : List (Sym × VersymRow)} {slack moreSyms : Bytes}
     (F : VersymFacts env d sec fill rows slack moreSyms) :
     ∃ off size es symOff symEs symStrOff,
